@@ -59,34 +59,100 @@ pub(crate) fn c03_slice_passthru<S: Shape>() {
 }
 
 // ------------------------------------------------------------ C03 / C01, fast line path
-// Same model, but the matcher declares the line terminator, so Core takes
-// match_by_line_fast / find_by_line_fast / match_by_line_fast_invert (and
-// switches to the slow loop after the first match under stop-on-nonmatch).
-fn c03_fast_body<S: Shape>(cfg: Cfg) {
-    let hit = any_hits::<S>();
-    let matcher = LtMatcher::new::<S>(hit);
-    let searcher = build_searcher::<S>(&cfg, false);
-    let mut sink = RecSink::new(S::HAY);
-    let r = SliceByLine::new(&searcher, &matcher, S::HAY, &mut sink).run();
-    assert!(r.is_ok(), "search returns Ok");
-    let (want, count_known) = model_events::<S>(&hit, &cfg);
-    assert_log_is_model(&sink, &want, count_known, evcap::<S>());
-    kani::cover!(sink.n >= S::NL + 2, "reach-end");
+// The matcher declares the line terminator, so Core takes match_by_line_fast /
+// find_by_line_fast / match_by_line_fast_invert (and switches to the slow loop
+// after the first match under stop-on-nonmatch).  On this path the scan
+// position depends on WHICH lines match, so with a symbolic hit table every
+// nested loop is unrolled to its bound at every level (DESIGN.md section 0:
+// does not terminate).  The hit table is therefore the second enumerated axis
+// here: the harness loops over every hit pattern of the shape, over
+// invert / stop-on-nonmatch, and over where in the line the matcher reports
+// its offset (start or end of content), all concrete per iteration, so the
+// search's control flow folds; A, B in 0..=2, line numbering and (C16) the
+// stop/error index stay symbolic and are decided by the solver.
+// `mode`: 0 = Confirmed offsets; 1 = Candidate offsets, candidates == hits;
+// 2 = Candidate offsets, EVERY line is a candidate (maximal false positives).
+fn fast_matcher<S: Shape>(pat: usize, mode: u8, at_end: bool) -> Option<LtMatcher> {
+    let mut hit = [false; MAXL];
+    let mut cand = [false; MAXL];
+    let mut moff = [0usize; MAXL];
+    let mut empty_seen = false;
+    let mut empty_val = false;
+    let mut k = 0;
+    while k < S::NL {
+        hit[k] = (pat >> k) & 1 == 1;
+        if S::CLEN[k] == 0 {
+            // lines with identical (empty) content share one answer
+            if empty_seen && empty_val != hit[k] {
+                return None;
+            }
+            empty_seen = true;
+            empty_val = hit[k];
+        }
+        cand[k] = hit[k] || mode == 2;
+        moff[k] = if at_end { S::CLEN[k] } else { 0 };
+        k += 1;
+    }
+    Some(LtMatcher {
+        plain: PlainMatcher {
+            hit,
+            hit_empty: empty_val,
+            raw: false,
+            termbyte: term_of::<S>().as_byte(),
+            nl: S::NL,
+        },
+        cand,
+        moff,
+        confirm: mode == 0,
+        n: S::HAY.len(),
+        lstart: S::LSTART,
+        term: term_of::<S>(),
+    })
+}
+
+fn c03_fast_enum<S: Shape>(mode: u8) {
+    let mut cfg = any_cfg(2);
+    cfg.passthru = false;
+    cfg.invert = false;
+    cfg.stop_nm = false;
+    let mut searcher = build_searcher::<S>(&cfg, false);
+    let mut delivered_all = false;
+    let mut v = 0;
+    while v < 8 {
+        let (inv, stop, at_end) = (v & 1 == 1, v & 2 == 2, v & 4 == 4);
+        cfg.invert = inv;
+        cfg.stop_nm = stop;
+        // same object the builder produced; only the two flags are switched
+        searcher.config.invert_match = inv;
+        searcher.config.stop_on_nonmatch = stop;
+        let mut pat = 0;
+        while pat < (1usize << S::NL) {
+            if let Some(matcher) = fast_matcher::<S>(pat, mode, at_end) {
+                let mut sink = RecSink::new(S::HAY);
+                let r = SliceByLine::new(&searcher, &matcher, S::HAY, &mut sink).run();
+                assert!(r.is_ok(), "search returns Ok");
+                let (want, count_known) = model_events::<S>(&matcher.plain.hit, &cfg);
+                assert_log_is_model(&sink, &want, count_known, evcap::<S>());
+                if sink.n >= S::NL + 2 {
+                    delivered_all = true;
+                }
+            }
+            pat += 1;
+        }
+        v += 1;
+    }
+    kani::cover!(delivered_all, "reach-end");
     std::mem::forget(searcher);
 }
 
-pub(crate) fn c03_fast_ctx<S: Shape>() {
-    let mut cfg = any_cfg(2);
-    cfg.passthru = false;
-    cfg.stop_nm = false;
-    c03_fast_body::<S>(cfg)
+pub(crate) fn c03_fast_confirmed<S: Shape>() {
+    c03_fast_enum::<S>(0)
 }
-
-pub(crate) fn c03_fast_stop<S: Shape>() {
-    let mut cfg = any_cfg(1);
-    cfg.passthru = false;
-    cfg.stop_nm = true;
-    c03_fast_body::<S>(cfg)
+pub(crate) fn c03_fast_candidate<S: Shape>() {
+    c03_fast_enum::<S>(1)
+}
+pub(crate) fn c03_fast_candidate_all<S: Shape>() {
+    c03_fast_enum::<S>(2)
 }
 
 // ------------------------------------------------------------ C02
